@@ -89,17 +89,18 @@ def FlatTbl (tbl : List Func) : Prop := ∀ f ∈ tbl, opsAllNodes (fun op => (f
 theorem deepOK_inlAt (I : Interp Val) (Φ : FEnv Val) (α : List (String × AttrData)) (tbl : List Func)
     (crit : OpId → Bool) (ht : TblOK I Φ tbl) : ∀ k, DeepOK I Φ α tbl (inlAt tbl crit k)
   | 0 => by
-    intro Q lo ns st ρ _
+    intro Q lo ns st ρ hwf
     simp only [inlAt]
-    exact ⟨fun v _ => by rw [Subst.app_nil], Nat.le_refl _, fun p hp => by simp at hp⟩
+    exact ⟨fun v _ => by rw [Subst.app_nil], Nat.le_refl _, fun p hp => by simp at hp, hwf.closed,
+      fun v hv => by rw [Subst.app_nil]; exact hv⟩
   | k + 1 => by
     intro Q lo ns st ρ hwf
-    obtain ⟨k1, _, k3, k4, k5⟩ := inlNodes_sound I Φ α tbl crit (inlAt tbl crit k) st.next ht
+    obtain ⟨k1, _, k3, k4, k5, k6, k7, _⟩ := inlNodes_sound I Φ α tbl crit (inlAt tbl crit k) st.next ht
       (deepOK_inlAt I Φ α tbl crit ht k) ns [] [] st ρ ρ (fun v _ => by rw [Subst.app_nil])
       (fun p hp => by simp at hp) hwf.ssa hwf.closed hwf.nofwd (fun v hv => (hwf.refs v hv).1)
       (fun v hv => (hwf.defs v hv).2) (Nat.le_refl _) (fun p hp => by simp at hp) hwf.calls
     simp only [inlAt]
-    refine ⟨k1, k3, fun p hp => ?_⟩
+    refine ⟨k1, k3, fun p hp => ?_, k6, k7⟩
     rcases k5 p hp with h | ⟨h1, h2⟩
     · simp at h
     · obtain ⟨a, b⟩ := hwf.defs p.1 h1
